@@ -318,8 +318,34 @@ def check_reject(ctx, out):
     else:
         n += 1
     # the Err path: None -> with_context -> Err
-    e = ctx.expr(pv).local(0)
-    if find_calls(e, r"anyhow::Context.*::(with_context|context)$|Option::<T>::ok_or(_else)?$"):
+    # decided on the normalised view: (i) an `Err(..)` returned exactly when `contains` is false, or
+    # (ii) an Option that is None exactly when `contains` is false, converted with context / ok_or
+    pvs = ctx.inl(pv, skip=ctx.domain_api, tag="domain", sugar=True)
+    is_contains = lambda e: e[0] == "call" and re.search(r"<impl \[T\]>::contains$", e[1]) is not None
+    err_ok = False
+    slots = util.return_slots(pvs)
+    for bi, j, s in pvs.assigns():
+        rv = s["rv"]
+        if s["lhs"]["l"] in slots and rv["k"] == "agg" and rv.get("variant") == "Err" and rv.get("path") == "std::result::Result":
+            for br, vals, e in util.guards(ctx, pvs, bi):
+                if is_contains(e) and vals == {0} and util.arm_only_err(ctx, pvs, br, vals):
+                    err_ok = True
+    for bi, t in pvs.calls():
+        if callee_matches(t, r"anyhow::Context.*::(with_context|context)$|Option::<T>::ok_or(_else)?$") and "Option<" in (t.get("arg_tys") or [""])[0]:
+            pl = util.op_place(t["args"][0])
+            src = util.copy_root(pvs, pl["l"]) if pl else None
+            none_g = some_g = False
+            for bj, j, s in pvs.assigns():
+                if src is not None and s["lhs"]["l"] == src and not s["lhs"]["p"] and s["rv"]["k"] == "agg":
+                    for br, vals, e in util.guards(ctx, pvs, bj):
+                        if is_contains(e):
+                            if s["rv"].get("variant") == "None" and vals == {0}:
+                                none_g = True
+                            if s["rv"].get("variant") == "Some" and 0 not in vals:
+                                some_g = True
+            if none_g and some_g:
+                err_ok = True
+    if err_ok:
         n += 1
     else:
         out.viol("C14.reject", "C14.reject|err", ctx.where(pv), "the value parser does not turn a non-member into an Err")
